@@ -164,6 +164,10 @@ func Emit(c *ir.Config, d Delivery) (yaml string, params []string) {
 		}
 		var b strings.Builder
 		for _, k := range mapKeys(d.Shuffle, m) {
+			if len(m[k]) == 0 {
+				fmt.Fprintf(&b, "  %s: []\n", q(k)) // an explicit empty list switches the option off for this key
+				continue
+			}
 			fmt.Fprintf(&b, "  %s:\n", q(k))
 			for _, e := range m[k] { // order is meaningful: never shuffled
 				fmt.Fprintf(&b, "    - %s\n", q(e))
